@@ -351,6 +351,7 @@ def run(tier, t0):
     # interleave heavy (depth 3) and light items so that the pool balances
     fine.sort(key=lambda it: json.dumps(it[1], sort_keys=True))
     fine.append("accessor_postdecoration")
+    fine.append("clone")
     tot = core.merge(core.pmap(work_fine, fine))
     return core.finish(
         PROP, tier, tot, t0,
@@ -368,6 +369,7 @@ def run(tier, t0):
              "tables incl. the newly introduced conditions). Histories Python or icontract reject at the last step are checked "
              "for having changed nothing; plus the accessors of a property (re-defined / setter extended / getter extended in a sub-class, 3 x 3 styles of "
              "target and sibling) decorated once more after the fact with a pre- or postcondition: base and sibling keep lists and verdicts; "
+             "a root class created once more from its own namespace (4 invariant settings) and then given an invariant (3 check_on) or a sub-class with one: the original stays as it was; "
              "non-trivial = every valid history".format(plans),
         assumptions=["subclassing without the DBC base is documented as leaking and excluded",
                      "no state merging: every history is executed (states = histories)"],
@@ -483,12 +485,100 @@ def check_accessor_postdecoration(acc):
                     core.unload_source(ns)
     acc.sample({"family": "accessor_postdecoration", "styles": sorted(ACC_STYLES), "decorations": [list(k) for k in sorted(ACC_DECOS)]}, cap=1)
 
+# ---------------------------------------------------------------------------------------------
+# a class created a second time from the namespace of an existing one (as dataclass(slots=True) does, or a copying class factory):
+# whatever is added to the copy afterwards must not reach the original
+
+CLONE_SRC = '''\
+import icontract
+T = {}
+def _t(n):
+    return T.get(n, True)
+def v_A(self):
+    return _t("v_A")
+def v_new(self):
+    return _t("v_new")
+def p_A(self):
+    return _t("p_A")
+def p_new(self):
+    return _t("p_new")
+{deco}
+class A(icontract.DBC):
+    def __init__(self):
+        self.x = 1
+    @icontract.require(p_A)
+    def m(self):
+        return 1
+A2 = type(A)("A2", A.__bases__, {{k: v for k, v in vars(A).items() if k not in ("__dict__", "__weakref__")}})
+'''
+CLONE_DECOS = {"C": "@icontract.invariant(v_A)", "S": "@icontract.invariant(v_A, check_on=icontract.InvariantCheckEvent.SETATTR)",
+               "A": "@icontract.invariant(v_A, check_on=icontract.InvariantCheckEvent.ALL)", "-": ""}
+CLONE_STEPS = {
+    "inv_call": "icontract.invariant(v_new)(A2)",
+    "inv_setattr": "icontract.invariant(v_new, check_on=icontract.InvariantCheckEvent.SETATTR)(A2)",
+    "inv_all": "icontract.invariant(v_new, check_on=icontract.InvariantCheckEvent.ALL)(A2)",
+    "subclass_with_invariant": "icontract.invariant(v_new, check_on=icontract.InvariantCheckEvent.ALL)(type(A)('B2', (A2,), {}))",
+}
+
+
+def check_clone(acc):
+    def observe(ns):
+        A = ns["A"]
+        lists = {attr: [c.condition.__name__ for c in getattr(A, attr, [])] for attr in ("__invariants__", "__invariants_on_call__", "__invariants_on_setattr__")}
+        probes = []
+        for falsy in (None, "v_A", "v_new", "p_A", "p_new"):
+            ns["T"].clear()
+            if falsy:
+                ns["T"][falsy] = False
+            res = []
+            try:
+                o = A()
+                res.append("init:ok")
+            except Exception as e:
+                o = None
+                res.append("init:" + type(e).__name__)
+            if o is not None:
+                for label, fn in (("m", lambda: o.m()), ("set", lambda: setattr(o, "x", 2))):
+                    try:
+                        fn()
+                        res.append(label + ":ok")
+                    except Exception as e:
+                        res.append(label + ":" + type(e).__name__)
+            probes.append((falsy, tuple(res)))
+        ns["T"].clear()
+        return lists, probes
+
+    for dk, deco in sorted(CLONE_DECOS.items()):
+        for sk, step in sorted(CLONE_STEPS.items()):
+            src = CLONE_SRC.replace("{deco}", deco).replace("{{", "{").replace("}}", "}")
+            ns = core.load_source(src, "c17c")
+            try:
+                before = observe(ns)
+                applied = "ok"
+                try:
+                    exec(compile(step, ns["__file__"] + "#step", "eval"), ns)
+                except Exception as e:
+                    applied = type(e).__name__
+                after = observe(ns)
+                acc.case(("clone", dk, sk), True, 10, applied)
+                if before != after:
+                    what = "introspection_lists_changed" if before[0] != after[0] else "verdicts_changed"
+                    acc.violation(core.Violation(PROP, what, {"family": "clone", "original_invariant": dk, "step": sk},
+                                                 "after the class A was created once more from its namespace (A2), '{}' changed the ORIGINAL class: before {} "
+                                                 "after {}".format(step, before, after), spec={"clone": [dk, sk]}, script=src + step + "\n"))
+            finally:
+                core.unload_source(ns)
+    acc.sample({"family": "clone", "steps": sorted(CLONE_STEPS)}, cap=1)
+
 
 def work_fine(args):
     acc = core.Acc()
     if any(a == "accessor_postdecoration" for a in args):
         check_accessor_postdecoration(acc)
         args = [a for a in args if a != "accessor_postdecoration"]
+    if any(a == "clone" for a in args):
+        check_clone(acc)
+        args = [a for a in args if a != "clone"]
     for root, first, depth, tier in args:
         h1 = [root, first]
         valid = check_history(h1, acc, tier)
@@ -511,7 +601,9 @@ def work_fine(args):
 def replay(path):
     data = json.load(open(path))["spec"]
     acc = core.Acc()
-    if "accessor_postdecoration" in data:
+    if "clone" in data:
+        check_clone(acc)
+    elif "accessor_postdecoration" in data:
         check_accessor_postdecoration(acc)
     else:
         check_history(data["history"], acc, "thorough")
